@@ -333,7 +333,7 @@ impl Property for C13 {
         }
     }
     fn required_labels(&self, _tier: Tier) -> Vec<&'static str> {
-        vec!["nontrivial", "members>30", "empty-set", "ancestor-and-descendant-members", "replacement-collides-with-member", "modifier-member", "modifier-root-member", "replaced-but-not-obsolete-member", "sequence:mutation-after-aggregate-read", "members>255", "replacement-names-an-id-that-is-not-a-term", "custom-modifier-roots", "custom-categories", "members-more-than-255-levels-apart", "unions>32767-records"]
+        vec!["nontrivial", "set-collected-from-terms-not-ascending", "members>30", "empty-set", "ancestor-and-descendant-members", "replacement-collides-with-member", "modifier-member", "modifier-root-member", "replaced-but-not-obsolete-member", "sequence:mutation-after-aggregate-read", "members>255", "replacement-names-an-id-that-is-not-a-term", "custom-modifier-roots", "custom-categories", "members-more-than-255-levels-apart", "unions>32767-records"]
     }
     fn run_generated(&self, tier: Tier, seed: u64, n: u64, stats: &mut Stats) -> Option<(Value, Failure)> {
         run_typed(strategy(tier), seed, n, stats, check)
